@@ -57,8 +57,12 @@ type srcInfo struct {
 }
 
 func newSrcInfo(src []byte, start hcl.Pos, entry string) *srcInfo {
+	return newSrcInfoIx(src, start, entry, refpos.New(src, start.Line, start.Column))
+}
+
+func newSrcInfoIx(src []byte, start hcl.Pos, entry string, ix *refpos.Index) *srcInfo {
 	si := &srcInfo{src: src, start: start, entry: entry}
-	si.ix = refpos.New(src, start.Line, start.Column)
+	si.ix = ix
 	si.posOK = !si.ix.LoneCR && !si.ix.LeadingBOM
 	si.colsOK = si.posOK
 	if si.colsOK {
@@ -474,50 +478,69 @@ func (si *srcInfo) checkExprTree(root hclsyntax.Node, _ bool, sig *strings.Build
 // parses are examined (the range-fidelity part of the property is stated for
 // error-free configurations).
 func judgeParse(d Data) engine.Outcome {
+	return judgeParseWith(d, &ixCache{src: d.Src})
+}
+
+type parseEntry struct {
+	name string
+	run  func(src []byte, start hcl.Pos) (hclsyntax.Node, bool)
+}
+
+var parseEntries = []parseEntry{
+	{"ParseConfig", func(src []byte, start hcl.Pos) (hclsyntax.Node, bool) {
+		f, diags := hclsyntax.ParseConfig(src, fname, start)
+		if diags.HasErrors() {
+			return nil, false
+		}
+		return f.Body.(*hclsyntax.Body), true
+	}},
+	{"ParseExpression", func(src []byte, start hcl.Pos) (hclsyntax.Node, bool) {
+		e, diags := hclsyntax.ParseExpression(src, fname, start)
+		return e, !diags.HasErrors()
+	}},
+	{"ParseTemplate", func(src []byte, start hcl.Pos) (hclsyntax.Node, bool) {
+		e, diags := hclsyntax.ParseTemplate(src, fname, start)
+		return e, !diags.HasErrors()
+	}},
+}
+
+func judgeParseWith(d Data, cache *ixCache) engine.Outcome {
 	var sig strings.Builder
-	for _, start := range lexStarts {
-		if o := parseChecks(d.Src, start, &sig); o != nil {
-			return *o
+	src, n := d.Src, len(d.Src)
+	for _, pe := range parseEntries {
+		for sti, start := range lexStarts {
+			node, ok := pe.run(src, start)
+			if !ok {
+				// whether a text is accepted does not depend on where it
+				// starts; the second start position is tried for accepted texts
+				break
+			}
+			nParseOK.Add(1)
+			si := newSrcInfoIx(src, start, pe.name, cache.get(sti))
+			sig.WriteString(pe.name[5:6])
+			switch pe.name {
+			case "ParseConfig":
+				if o := si.checkBody(node.(*hclsyntax.Body), &sig); o != nil {
+					return *o
+				}
+			case "ParseTemplate":
+				// the template is the whole buffer (after a byte order mark,
+				// which the scanner strips)
+				r := node.Range()
+				s0 := 0
+				if si.ix.LeadingBOM {
+					s0 = 3
+				}
+				if r.Start.Byte-start.Byte != s0 || r.End.Byte-start.Byte != n {
+					return *si.fail("c14.range.template-root.extent", "the template is the whole buffer but the range of its expression is %v", r)
+				}
+				fallthrough
+			default:
+				if o := si.checkExprTree(node, false, &sig); o != nil {
+					return *o
+				}
+			}
 		}
 	}
 	return engine.Pass(sig.String())
-}
-
-func parseChecks(src []byte, start hcl.Pos, sig *strings.Builder) *engine.Outcome {
-	n := len(src)
-	if f, diags := hclsyntax.ParseConfig(src, fname, start); !diags.HasErrors() {
-		nParseOK.Add(1)
-		si := newSrcInfo(src, start, "ParseConfig")
-		sig.WriteString("C")
-		if o := si.checkBody(f.Body.(*hclsyntax.Body), sig); o != nil {
-			return o
-		}
-	}
-	if e, diags := hclsyntax.ParseExpression(src, fname, start); !diags.HasErrors() {
-		nParseOK.Add(1)
-		si := newSrcInfo(src, start, "ParseExpression")
-		sig.WriteString("E")
-		if o := si.checkExprTree(e, false, sig); o != nil {
-			return o
-		}
-	}
-	if e, diags := hclsyntax.ParseTemplate(src, fname, start); !diags.HasErrors() {
-		nParseOK.Add(1)
-		si := newSrcInfo(src, start, "ParseTemplate")
-		sig.WriteString("T")
-		// the template is the whole buffer (after a byte order mark, which the
-		// scanner strips)
-		r := e.Range()
-		s0 := 0
-		if si.ix.LeadingBOM {
-			s0 = 3
-		}
-		if r.Start.Byte-start.Byte != s0 || r.End.Byte-start.Byte != n {
-			return si.fail("c14.range.template-root.extent", "the template is the whole buffer but the range of its expression is %v", r)
-		}
-		if o := si.checkExprTree(e, false, sig); o != nil {
-			return o
-		}
-	}
-	return nil
 }
